@@ -1,6 +1,129 @@
-(** Entry points for C11 (stub: replaced by the property's own entry file). *)
-From Coq Require Import ZArith List.
-From GV Require Import Base.Val.
+(** Entry points for C11 (export formats).  Wire shapes (see harness/c11.py, [enc_*]):
+      str      = list of code points            option x = () | (x)
+      taxon    = (id key name ncbi? rank? thr?)
+      genome   = (key desc org? ncbi_db? ncbi_id? genbank? refseq? id (taxon ...))
+      match    = (genome dist taxon?)
+      cresult  = (success pred? primary? closest next? (warning ...) error?)
+      file     = (path format compression?)
+      item     = (label file? cresult report? (match ...))
+      params   = (strict chunksize? report_closest)
+      gset     = (id key version? name description?)
+      jv       = (0) | (1 b) | (2 token) | (3 str) | (4 (jv ...)) | (5 ((key jv) ...))
+      results  = ((item ...) params? gset sigmeta-jv version timestamp extra-jv)
+      refdb    = ((gset ...) (taxon ...) (genome ...)) *)
+From Coq Require Import ZArith List Bool.
+From GV Require Import Base.Val Model.C11Csv Model.C11Json Model.C11Export.
+Import ListNotations.
 Open Scope Z_scope.
 
-Definition dispatch (op : Z) (a : val) : val := vbad.
+Definition vstr (s : str) : val := VL (map VI s).
+Definition vrows (rows : list (list str)) : val := vlist (vlist vstr) rows.
+Definition to_rows (v : val) : list (list str) := map (fun r => map to_Zs (to_list r)) (to_list v).
+Definition nthv (n : nat) (v : val) : val := nth n (to_list v) (VL []).
+Definition to_ostr (v : val) : option str := to_opt to_Zs v.
+
+Definition xerr_code (e : xerr) : Z :=
+  match e with DecodeError => 11 | OutOfFuel => 12 | NoResultFound => 13
+             | MultipleResultsFound => 14 | StructureError => 15 end.
+Definition vxres {A} (f : A -> val) (r : xres A) : val :=
+  match r with XOk a => vok (f a) | XErr e => verr (xerr_code e) end.
+
+Fixpoint to_jv (v : val) : jv :=
+  match v with
+  | VL [VI 0] => JNull
+  | VL [VI 1; VI b] => JBool (negb (b =? 0))
+  | VL [VI 2; t] => JNum (to_Zs t)
+  | VL [VI 3; s] => JStr (to_Zs s)
+  | VL [VI 4; VL l] => JArr (map to_jv l)
+  | VL [VI 5; VL l] =>
+      JObj (map (fun kv => match kv with
+                           | VL [k; x] => (to_Zs k, to_jv x)
+                           | _ => ([], JNull)
+                           end) l)
+  | _ => JNull
+  end.
+
+Fixpoint of_jv (j : jv) : val :=
+  match j with
+  | JNull => VL [VI 0]
+  | JBool b => VL [VI 1; vbool b]
+  | JNum t => VL [VI 2; vstr t]
+  | JStr s => VL [VI 3; vstr s]
+  | JArr l => VL [VI 4; VL (map of_jv l)]
+  | JObj l => VL [VI 5; VL (map (fun kv => VL [vstr (fst kv); of_jv (snd kv)]) l)]
+  end.
+
+Definition to_taxon (v : val) : taxon :=
+  mkT (to_Zs (nthv 0 v)) (to_Zs (nthv 1 v)) (to_Zs (nthv 2 v)) (to_ostr (nthv 3 v))
+      (to_ostr (nthv 4 v)) (to_ostr (nthv 5 v)).
+Definition to_genome (v : val) : genome :=
+  mkG (to_Zs (nthv 0 v)) (to_Zs (nthv 1 v)) (to_ostr (nthv 2 v)) (to_ostr (nthv 3 v))
+      (to_ostr (nthv 4 v)) (to_ostr (nthv 5 v)) (to_ostr (nthv 6 v)) (to_Zs (nthv 7 v))
+      (map to_taxon (to_list (nthv 8 v))).
+Definition to_match (v : val) : gmatch :=
+  mkM (to_genome (nthv 0 v)) (to_Zs (nthv 1 v)) (to_opt to_taxon (nthv 2 v)).
+Definition to_cresult (v : val) : cresult :=
+  mkC (to_bool (nthv 0 v)) (to_opt to_taxon (nthv 1 v)) (to_opt to_match (nthv 2 v))
+      (to_match (nthv 3 v)) (to_opt to_taxon (nthv 4 v)) (map to_Zs (to_list (nthv 5 v)))
+      (to_ostr (nthv 6 v)).
+Definition to_file (v : val) : qfile :=
+  mkF (to_Zs (nthv 0 v)) (to_Zs (nthv 1 v)) (to_ostr (nthv 2 v)).
+Definition to_item (v : val) : item :=
+  mkI (to_Zs (nthv 0 v)) (to_opt to_file (nthv 1 v)) (to_cresult (nthv 2 v))
+      (to_opt to_taxon (nthv 3 v)) (map to_match (to_list (nthv 4 v))).
+Definition to_params (v : val) : params :=
+  mkP (to_bool (nthv 0 v)) (to_ostr (nthv 1 v)) (to_Zs (nthv 2 v)).
+Definition to_gset (v : val) : gset :=
+  mkGS (to_Zs (nthv 0 v)) (to_Zs (nthv 1 v)) (to_ostr (nthv 2 v)) (to_Zs (nthv 3 v))
+       (to_ostr (nthv 4 v)).
+Definition to_results (v : val) : results :=
+  mkR (map to_item (to_list (nthv 0 v))) (to_opt to_params (nthv 1 v)) (to_gset (nthv 2 v))
+      (to_jv (nthv 3 v)) (to_Zs (nthv 4 v)) (to_Zs (nthv 5 v)) (to_jv (nthv 6 v)).
+Definition to_refdb (v : val) : refdb :=
+  mkDB (map to_gset (to_list (nthv 0 v))) (map to_taxon (to_list (nthv 1 v)))
+       (map to_genome (to_list (nthv 2 v))).
+Definition to_xitems (v : val) : list (item * str) :=
+  map (fun p => (to_item (nthv 0 p), to_Zs (nthv 1 p))) (to_list v).
+
+Definition vostr (o : option str) : val := vopt vstr o.
+Definition of_taxon (t : taxon) : val :=
+  VL [vstr (t_id t); vstr (t_key t); vstr (t_name t); vostr (t_ncbi t); vostr (t_rank t); vostr (t_thr t)].
+Definition of_genome (g : genome) : val :=
+  VL [vstr (g_key g); vstr (g_desc g); vostr (g_org g); vostr (g_ncbi_db g); vostr (g_ncbi_id g);
+      vostr (g_gb g); vostr (g_rs g); vstr (g_id g); vlist of_taxon (g_tax g)].
+Definition of_match (m : gmatch) : val :=
+  VL [of_genome (m_genome m); vstr (m_dist m); vopt of_taxon (m_taxon m)].
+Definition of_cresult (c : cresult) : val :=
+  VL [vbool (c_success c); vopt of_taxon (c_pred c); vopt of_match (c_primary c);
+      of_match (c_closest c); vopt of_taxon (c_next c); vlist vstr (c_warn c); vostr (c_err c)].
+Definition of_file (f : qfile) : val := VL [vstr (f_path f); vstr (f_format f); vostr (f_comp f)].
+Definition of_item (i : item) : val :=
+  VL [vstr (i_label i); vopt of_file (i_file i); of_cresult (i_cr i); vopt of_taxon (i_report i);
+      vlist of_match (i_closest i)].
+Definition of_params (p : params) : val := VL [vbool (p_strict p); vostr (p_chunk p); vstr (p_nclosest p)].
+Definition of_gset (g : gset) : val :=
+  VL [vstr (gs_id g); vstr (gs_key g); vostr (gs_version g); vstr (gs_name g); vostr (gs_desc g)].
+Definition of_results (r : results) : val :=
+  VL [vlist of_item (r_items r); vopt of_params (r_params r); of_gset (r_gset r);
+      of_jv (r_sigmeta r); vstr (r_version r); vstr (r_timestamp r); of_jv (r_extra r)].
+
+Definition dispatch (op : Z) (a : val) : val :=
+  match op with
+  | 1 => vstr (csv_write_old (to_rows a))
+  | 2 => vstr (csv_write_fixed (to_rows a))
+  | 3 => vrows (csv_parse (to_Zs a))
+  | 4 => vstr (json_write_string (to_Zs a))
+  | 5 => vxres (fun p => VL [vstr (fst p); vstr (snd p)]) (json_read_string (to_Zs a))
+  | 6 => vstr (csv_export_old (to_xitems a))
+  | 7 => vstr (csv_export_fixed (to_xitems a))
+  | 8 => vstr (json_export (to_results a))
+  | 9 => vstr (archive_export (to_results a))
+  | 10 => vxres of_results (archive_read true (to_refdb (nthv 0 a)) (ar_results (to_results (nthv 1 a))))
+  | 11 => vrows (csv_rows (to_xitems a))
+  | 12 => vbool (rows_cr_ok (to_rows a))
+  | 13 => vbool (str_ok (to_Zs a))
+  | 14 => vstr (json_write (to_jv a))
+  | 15 => vxres of_results (archive_read true (to_refdb (nthv 0 a)) (to_jv (nthv 1 a)))
+  | 16 => vxres of_results (archive_read false (to_refdb (nthv 0 a)) (ar_results (to_results (nthv 1 a))))
+  | _ => vbad
+  end.
